@@ -11,6 +11,7 @@ inference-tools code and states assertions through `h`.  The same unit runs
   assertion.
 """
 import os
+from fractions import Fraction
 import types
 import hashlib
 import inspect
@@ -25,7 +26,7 @@ from . import funcs
 from .core import (Ctx, PathAbort, Realification, SymReal, SymBool, R, B, lift, explore,
                    PI, SQRT2, SQRTPI, SQRT3, LOG2PI, LOG2, LOGPI, CONST_VALUES, exprs)
 from .diff import diff
-from .solve import solve, prove, to_smt2, STATS
+from .solve import solve, prove, to_smt2, STATS, free_vars
 
 REGISTRY = {}
 
@@ -86,6 +87,7 @@ class H:
         self.assumptions_txt = []
         self._patches = []
         self._auto_done = set()
+        self.uf_family = {}
         self._names = {}
         self.uf_calls = {}
         self.allowed_exc = ()
@@ -255,6 +257,7 @@ class H:
                     calls.append(list(flat))
                 return SymReal(f(*[R(a) for a in flat]))
             call.decl = f
+            self.uf_family[name] = (f, family)
             return call
         if family:
             fn = family[self.family_index % len(family)]
@@ -619,6 +622,9 @@ def _try_replay(u, ctx, h, target, hyps, neg, robust, timeout_ms, is_exception=N
                 continue
             if isinstance(exc, ReplayMismatch):
                 last_detail = f"replay mismatch: {exc}"
+                hit = [c for c in hc.concrete_checks if c[0] == target]
+                if hit and not hit[0][1]:
+                    return True, (vals, tables), hit[0][2]     # the check was reached and failed before the mismatch
                 continue
             if kind == "defined" and isinstance(exc, (ZeroDivisionError, FloatingPointError, OverflowError)):
                 return True, (vals, tables), f"replay raised {type(exc).__name__}: {exc}"
@@ -630,6 +636,34 @@ def _try_replay(u, ctx, h, target, hyps, neg, robust, timeout_ms, is_exception=N
                     break
             else:
                 last_detail = f"check {target} not reached on replay" + (f" (exception {type(exc).__name__}: {exc})" if exc else "")
+            # family-consistent second attempt: the concrete replay evaluates the uninterpreted functions through a fixed
+            # smooth family, so the model's own function values may put the replay on another path.  Pin the arguments of
+            # the function applications to the model's values, constrain the applications to the family's values there and
+            # solve again for the remaining inputs.
+            fams = {n_: ff for n_, ff in getattr(h, "uf_family", {}).items() if ff[1]}
+            if fams and not getattr(_try_replay, "_nested", False):
+                try:
+                    pins = []
+                    inputs_by_id = {c.get_id(): (nm, c) for nm, c in ctx.inputs.items()}
+                    for n_, (decl, family) in fams.items():
+                        fn = family[fam % len(family)]
+                        for args in h.uf_calls.get(n_, []):
+                            cargs = [mv.value(R(a)) for a in args]
+                            for a in args:
+                                for vid in free_vars(R(a)):
+                                    if vid in inputs_by_id:
+                                        nm, c = inputs_by_id[vid]
+                                        pins.append(c == z3.RealVal(str(Fraction(vals[nm]))))
+                            pins.append(decl(*[R(a) for a in args]) == z3.RealVal(str(Fraction(float(fn(*cargs))))))
+                    st2, mv2 = solve(list(q) + pins, timeout_ms=min(timeout_ms, 15000))
+                    if st2 == "sat":
+                        vals2, tables2 = _model_inputs(ctx, mv2, list(h.uf_calls.keys()))
+                        hc2, exc2 = _run_concrete(u, vals2, tables2, fam)
+                        for (n, ok, detail) in hc2.concrete_checks:
+                            if n == target and not ok:
+                                return True, (vals2, tables2), "[family-consistent replay] " + detail
+                except Exception:  # noqa: BLE001
+                    pass
         attempts.append(last_detail)
     return False, None, last_detail
 
@@ -773,7 +807,7 @@ def run_unit(u, tier="quick", seed=0, query_timeout_ms=None, log=print):
         out["inconclusive"].append("vacuous unit: no reachable path with an obligation")
     completed = sum(1 for pr in results if pr.abort is None and pr.error is None)
     allowed = out["aborted"].get("allowed_exception", 0)
-    if results and completed + allowed == 0 and not any("vacuous unit" in t for t in out["inconclusive"]):
+    if results and completed + allowed == 0:
         out["inconclusive"].append("no path ran the unit to its end (every path was cut short by a bound or an abort): nothing is claimed")
     if Ctx.truncated_forks and opts.get("_hunt"):
         out["inconclusive"].append(f"{Ctx.truncated_forks} int() fork(s) over an unbounded value explored only partially")
